@@ -3,7 +3,7 @@
    [text_matches] is compared with the real scanner on every run (checks/c01.py), and [cover_ok] is
    evaluated on the atoms decoded from every compiled image. Proofs: Proofs/TextProofs.v. *)
 From Coq Require Import List NArith Sorting.Sorted.
-From YV Require Import Base.Bytes Spec.TextSpec Model.TextAtoms Proofs.TextProofs.
+From YV Require Import Base.Bytes Spec.TextSpec Model.Arena Model.Image Model.AC Model.TextAtoms Proofs.TextProofs Proofs.ACProofs.
 Import ListNotations.
 
 (* the reference the implementation is compared with reports each offset once, in ascending order,
@@ -22,8 +22,26 @@ Theorem candidates_complete : forall s m atoms buf o lk,
   cover_ok s m atoms = true -> In lk (occs_at s m buf o) -> candidate atoms buf o.
 Proof. exact candidates_complete_proof. Qed.
 Print Assumptions candidates_complete.
+(* the automaton stored in the compiled image: under the certificate ac_cert (evaluated on every
+   generated image) the scan loop, at every position of every buffer, walks exactly the matches owned by
+   the states whose path is a suffix of the input read so far - nothing else and nothing less *)
+Theorem ac_reports_all_and_only : forall cr, ac_cert cr = true -> forall buf i mu, all_bytes buf = true ->
+  (In mu (hits_at cr buf i) <->
+   (exists v, suffix v (firstn i buf) /\ owns cr (states cr) mu v) /\
+   (am_backtrack (pool_at cr mu) <= N.of_nat i)%N).
+Proof. intros cr Hc buf i mu Hb. exact (ac_reports_all_and_only_proof cr Hc buf i mu Hb). Qed.
+Print Assumptions ac_reports_all_and_only.
+
+(* together: every occurrence of every atom of a string reaches the verifier with the occurrence's offset *)
+Theorem atom_hits_reach_verifier : forall cr sidx a bt buf o,
+  ac_cert cr = true -> all_bytes buf = true ->
+  In (a, bt) (atoms_of cr sidx) -> atom_ends_at a buf (o + N.to_nat bt) ->
+  exists mu, In mu (hits_at cr buf (o + N.to_nat bt)) /\ am_string (pool_at cr mu) = sidx /\
+             (N.of_nat (o + N.to_nat bt) - am_backtrack (pool_at cr mu) = N.of_nat o)%N.
+Proof. exact atom_hits_reach_verifier_proof. Qed.
+Print Assumptions atom_hits_reach_verifier.
 (* not proved here (correspondence only): that the verifier accepts exactly the occurrences among the
-   candidates, and that the stored automaton reports exactly the atom hits (ac tables). *)
+   candidates (the compare functions of scan.c). *)
 
 Example cover_and_occurrence :
   let m := {| m_ascii := true; m_wide := true; m_nocase := true; m_fullword := false; m_xor := None |} in
